@@ -66,5 +66,14 @@ expect("removed_file", "diff --git a/dead.txt b/dead.txt\ndeleted file mode 1006
 expect("added_file", "diff --git a/born.txt b/born.txt\nnew file mode 100644\nindex 0000000..1111111\n--- /dev/null\n+++ b/born.txt\n@@ -0,0 +1,2 @@\n+x\n+y\n", ["ADD born.txt"], ["born.txt:1"])
 expect("two_modified", "diff --git a/a.rs b/a.rs\nindex 1111111..2222222 100644\n--- a/a.rs\n+++ b/a.rs\n" + HUNK + "diff --git a/b.rs b/b.rs\nindex 1111111..2222222 100644\n--- a/b.rs\n+++ b/b.rs\n@@ -7 +9 @@\n-p\n+q\n",
        ["MOD a.rs", "MOD b.rs"], ["a.rs:50", "b.rs:9"])
+# plain `diff -u`: a removed line whose text starts with "-- " reads "--- ..." and must stay content
+du = "--- a.lua\t2024-01-01 00:00:00.000000000 +0000\n+++ b.lua\t2024-01-02 00:00:00.000000000 +0000\n@@ -1,2 +1,2 @@\n--- first removed comment\n-second removed\n+-- added comment\n+second added\n"
+rc, lines = render(du)
+text = "\n".join(lines)
+n_headers = len([l for l in lines if l.startswith("MOD ") or "a.lua" in l and "=>" in l or l.startswith("comparing") or "b.lua" in l and ":" not in l])
+if rc != 0 or "-- first removed comment" not in text or "second removed" not in text or "second added" not in text or text.count("first removed comment") != 1:
+    bad += 1
+    print(f"api replay: scenario diff_u_dashes_first_line: a removed line reading '--- ...' at the top of a hunk was not shown as content (exit {rc}): {lines}")
+    open(os.path.join(outdir, "api_replay_diff_u.diff"), "w").write(du)
 print(f"api replay: {bad} scenario(s) with wrong file headers or hunk-header boxes")
 sys.exit(1 if bad else 0)
